@@ -223,6 +223,34 @@ def shard_add_api(seed, idx, n):
             res.fail("oracle", {"op": "add_rule_from_string", "text": text, "list": which},
                      {"why": "after add_%s_rule_from_string (%s) the object no longer validates: it contains a malformed rule" % (which, out),
                       "rules": after})
+        # a malformed rule put into the rule list of an object that HAS validated before (appended to the list, or an
+        # existing rule edited in place - no attribute is assigned): the object no longer validates, and no layout can
+        # be built from it
+        if valid:
+            from in_toto.models.layout import Layout
+            bad = rng.choice([["CREATE"], ["MATCH", "x"], ["SUBVERT", "x"], ["ALLOW", "a", "b"], ["MATCH", "*", "WITH", "NOTHING", "FROM", "s"]])
+            lst = getattr(obj, "expected_%ss" % which)
+            how = rng.choice(["append", "edit_in_place"])
+            if how == "append" or not lst:
+                lst.append(list(bad))
+            else:
+                lst[0].append("junk")
+                bad = list(lst[0])
+            outs = {}
+            for label, call in (("validate", obj.validate),
+                                ("layout", (lambda: Layout(steps=[obj])) if isinstance(obj, Step) else (lambda: Layout(inspect=[obj])))):
+                try:
+                    call()
+                    outs[label] = "accepted"
+                except FormatError:
+                    outs[label] = "FormatError"
+                except Exception as e:  # pylint: disable=broad-except
+                    outs[label] = type(e).__name__
+            res.case({"rule_list_changed_in_place": bad, "how": how, "outcomes": outs}, True, "accepted" not in outs.values(), sample_cap=1)
+            res.count("in_place_rule_edit")
+            if "accepted" in outs.values():
+                res.fail("oracle", {"op": "in_place_rule_edit", "rule": bad, "how": how, "list": which},
+                         {"why": "an object whose rule list contains a malformed rule validates / a layout can be built from it", "outcomes": outs})
     return res
 
 
